@@ -197,6 +197,29 @@ example : keepRunners [{ type := 5, valid := false, avgCorr := 0, prob := 0 },
     { type := 6, valid := true, avgCorr := 1 / 2, prob := 1 / 3 }] = ([6], [1 / 2], [1 / 3]) := by
   decide +kernel
 
+/-- the runner-up fields: every listed runner-up is a column other than the
+    winner's that received votes; its probability is its share of the votes and its
+    correlation the mean winning correlation over the iterations that voted for
+    it (any tie order). -/
+theorem runner_fields (types votes : List Nat) (corr : List Rat) (iters nAssign : Nat)
+    (order : List Nat) (ch : Choice)
+    (hv : ValidOrder (columns types votes corr).1 order)
+    (h : chooseCell types votes corr iters nAssign order = .ok ch) :
+    ∃ (w : Nat) (idxs : List Nat),
+      ch.winner = (columns types votes corr).2.2.getD w 0 ∧ idxs.Nodup ∧ w ∉ idxs ∧
+      (∀ i ∈ idxs, i < (columns types votes corr).1.length ∧
+        0 < (columns types votes corr).1.getD i 0) ∧
+      (keepRunners ch.runners).1 = idxs.map (fun i => (columns types votes corr).2.2.getD i 0) ∧
+      (keepRunners ch.runners).2.1 = idxs.map (fun i =>
+        (columns types votes corr).2.1.getD i 0 / ((columns types votes corr).1.getD i 0 : Rat)) ∧
+      (keepRunners ch.runners).2.2 = idxs.map (fun i =>
+        ((columns types votes corr).1.getD i 0 : Rat) / (iters : Rat)) :=
+  chooseCols_runner_fields hv h
+
+example : (chooseCell [7, 5, 9] [2, 3, 1] [1, 2, 1 / 2] 6 3 [1, 0, 2]).toOption.map
+    (fun c => keepRunners c.runners) = some ([7, 9], [1 / 2, 1 / 2], [1 / 3, 1 / 6]) := by
+  decide +kernel
+
 /-- "Recomputing these quantities directly from the input files and the subsets
     that were drawn reproduces the output", for one cell at one node: whatever
     subsets were drawn, whatever tie order argsort produced and however many
